@@ -92,6 +92,77 @@ fn bucket(n: usize) -> &'static str {
     }
 }
 
+// ------------------------------------------------------------------------------- representation boundary
+fn has_ud(t: &Term) -> bool {
+    match t {
+        Var(i) => *i == 0,
+        Abs(b) => has_ud(b),
+        App(p) => has_ud(&p.0) || has_ud(&p.1),
+    }
+}
+
+/// Single substitutions with indices close to usize::MAX.  An index is a usize; where the mathematically correct
+/// result needs an index above usize::MAX the crate must REFUSE (panic), never return a term in which the index has
+/// wrapped around to UD or to a bound variable.  The model (unbounded naturals) decides which case applies; the oracle
+/// below additionally flags the tell-tale symptom by itself: UD in a result whose inputs contain none.
+/// This run uses a harness binary built WITHOUT overflow checks (what a release build of a user's program does).
+pub fn boundary(ctx: &mut Ctx) {
+    let m = usize::MAX;
+    let bigs = [m, m - 1, m - 2, m - 3, 1usize << 63, (1usize << 63) + 1, m >> 1];
+    let mut bodies: Vec<Term> = vec![
+        Var(1),                                             // λ1: substituted at depth 1, no shift
+        abs(Var(2)),                                        // λλ2 (K): shift by 1
+        abs!(2, Var(3)),                                    // shift by 2
+        abs!(3, app(Var(4), Var(1))),                       // shift by 3
+        app(Var(1), abs(Var(2))),                           // both depths
+        abs(app(Var(2), abs(app(Var(3), Var(1))))),
+        abs(Var(1)),                                        // argument discarded
+        abs(abs(app(Var(1), Var(2)))),
+    ];
+    for &b in bigs.iter() {
+        bodies.push(Var(b));                                // an outer reference of the body: lowered by one
+        bodies.push(abs(app(Var(2), Var(b))));
+    }
+    let mut args: Vec<Term> = Vec::new();
+    for &b in bigs.iter() {
+        args.push(Var(b));
+        args.push(app(Var(b), Var(1)));
+        args.push(abs(Var(b)));                             // under the argument's own binder
+        args.push(abs(app(Var(1), Var(b))));
+        args.push(app(abs(Var(b)), Var(b - 1)));
+    }
+    args.push(Var(1));
+    args.push(abs(Var(1)));
+    for body in &bodies {
+        for a in &args {
+            let f = abs(body.clone());
+            let line = format!("applyb {} {}", s(&f), s(a));
+            let r = ctx.op(&line);
+            ctx.nontrivial(&line);
+            ctx.count(if r == "PANIC" { "boundary_refused" } else { "boundary_returned" });
+            if let Some(rest) = r.strip_prefix("ok ") {
+                let mut it = rest.split_ascii_whitespace();
+                if let Some(t) = codec::dec(&mut it) {
+                    if has_ud(&t) && !has_ud(&f) && !has_ud(a) {
+                        ctx.fail("apply returned a term containing UD although neither the abstraction nor the argument contains it (an index wrapped around usize::MAX)", &[line.clone()]);
+                    }
+                }
+            }
+            for &o in [NOR, APP, HAP, HSP].iter() {
+                let t = app(f.clone(), a.clone());
+                let line = format!("reduceb {} {}", order_name(o), s(&t));
+                let r = ctx.op(&line);
+                ctx.nontrivial(&line);
+                if let Some((_, u)) = parse_reduce(&r) {
+                    if has_ud(&u) && !has_ud(&t) {
+                        ctx.fail("reduce returned a term containing UD although the input contains none (an index wrapped around usize::MAX)", &[line.clone()]);
+                    }
+                }
+            }
+        }
+    }
+}
+
 // ------------------------------------------------------------------------------------------ C01
 pub fn c01(ctx: &mut Ctx) {
     let sz = sizes(ctx, 1);
